@@ -115,6 +115,40 @@ theorem abort_keeps (s : Sess) :
     `abort_run` the instruction pointer is where the next `compile` starts emitting -/
 theorem abort_ip (s : Sess) : s.abortRun.m.ctx.ip = s.abortRun.m.code.length := rfl
 
+/-- `exit` that finds no exit code — an empty stack, a text, a number outside the range — fails like any other word and
+    raises NO stop request: a rejected REPL line such as `#( exit #)` does not end the session (repair: `core_word_exit`
+    used to raise the request before it looked for the code). Only an `exit` that ends with `Xerr::Exit` stops anything. -/
+theorem exit_without_a_code_stops_nothing (m : Mach) (h : ∀ c, (runProg wordExit m).1 ≠ .err (.exit c)) :
+    (runProg wordExit m).2.aboutToStop = m.aboutToStop := by
+  unfold wordExit at h ⊢
+  cases hds : m.ds with
+  | nil => simp [runProg, popData, hds]
+  | cons c rest =>
+    by_cases hlen : (c :: rest).length > m.ctx.dsLen
+    · have hp : m.popData = (.ok c, { (m.logStep (.pushData c)) with ds := rest }) := by
+        simp only [popData, hds]; simp only [hlen, if_true]
+      simp only [runProg, hp] at h ⊢
+      cases hc : c.toIsize with
+      | ok code => simp [hc, Prog.ofOutcome, runProg] at h
+      | err e => simp [hc, Prog.ofOutcome, runProg, logStep]
+      | panic p => simp [hc, Prog.ofOutcome, runProg, logStep]
+    · have hp : m.popData = (.err .stackUnderflow, m) := by
+        simp only [popData, hds]; simp only [hlen, if_false]
+      simp [runProg, hp]
+
+/-- … and one that has its code does stop: the request is raised and the answer is `Exit code` -/
+theorem exit_with_a_code_stops (m : Mach) (code : Int) (rest : List Cell) (hds : m.ds = .int code :: rest)
+    (hd : (Cell.int code :: rest).length > m.ctx.dsLen) (h1 : isizeMin ≤ code) (h2 : code ≤ isizeMax) :
+    (runProg wordExit m).1 = .err (.exit code) ∧ (runProg wordExit m).2.aboutToStop = true := by
+  have hc : (Cell.int code).toIsize = .ok code := by
+    simp only [Cell.toIsize, Cell.value]
+    have : ¬ (code < isizeMin ∨ code > isizeMax) := by omega
+    simp [this]
+  have hp : m.popData = (.ok (.int code), { (m.logStep (.pushData (.int code))) with ds := rest }) := by
+    simp only [popData, hds]; simp only [hd, if_true]
+  unfold wordExit
+  simp [runProg, hp, hc, Prog.ofOutcome]
+
 /-! ### every later source behaves as if the rejected one had never been submitted
 
 `rejected_source_restores` leaves four fields different. Nothing the interpreter does afterwards can tell: the two
